@@ -24,12 +24,14 @@ package configure
 //@ ghost var FedOf map[int]int
 
 //@ method (Loader).LoadConfig
+//@ terminates
 //@ property C15 C12
 //@ assigns LoadLen, LoadAt, LoadOut, Failed
 //@ ensures [load-traced] LoadLen == old(LoadLen) + 1 && LoadAt == store(old(LoadAt), old(LoadLen), self) && LoadOut == store(old(LoadOut), old(LoadLen), result0)
 //@ ensures [failure-recorded] Failed == (old(Failed) || result1 != nil)
 
 //@ method (Binder).SetConfig
+//@ terminates
 //@ property C15
 //@ assigns FedLen, FedAt, Failed
 //@ ensures [fed-traced] FedLen == old(FedLen) + 1 && FedAt == store(old(FedAt), old(FedLen), c)
@@ -59,6 +61,7 @@ package configure
 // configuration state, records a failure in the ghost trace, and invokes no runner.
 
 //@ method (Configure).Initialize
+//@ terminates
 //@ property C13 C09
 //@ assigns everything
 //@ ensures [failure-surfaces] implies(result == nil, Failed == old(Failed))
@@ -69,6 +72,7 @@ package configure
 // the binder, in that same order, unchanged; loading stops at the first error (C15, C12, C09) ---------------------
 
 //@ func (*configure).loadConfigure
+//@ terminates
 //@ property C15 C12
 //@ requires [binder-set] c.Binder != nil
 //@ requires [loaders-non-nil] forall(k, int, implies(0 <= k && k < len(c.loaders), c.loaders[k] != nil))
@@ -130,5 +134,6 @@ package configure
 // being populated (A-STABLE-CONFIG; loading happened-before, see C15).
 //@ spec func CfgGet(path string) any
 //@ method (Binder).Get
+//@ terminates
 //@ assigns nothing
 //@ ensures [reads-effective-config] result == CfgGet(path)
